@@ -193,7 +193,7 @@ pub fn run(opts: &crate::engine::Opts) -> crate::engine::Report {
     rep.assumptions = vec![
         "accumulated costs stay inside i32 (|cost| <= 65534 per step, sentences <= 200 characters)".into(),
         "every generated category has >= 1 unk.def entry (a category without entries is an open known finding)".into(),
-        "no generated range line covers U+0000 (astral characters would take its class: open known finding of C03)".into(),
+        "characters >= U+10000 are removed from sentences when a generated range line covers U+0000 (they would take its class: open known finding of C03)".into(),
         "termination is checked by a watchdog (exit 2), not proved".into(),
     ];
     let a = Partition { long: false, stress: false };
